@@ -356,6 +356,82 @@ def search_c13(mismatches, outdir):
     return _first_found(pairs, "a conjecture of an outline problem differs in meaning from the obligation that establishes the lemma (C13.inductive_lemma_justified / outline_sound)")
 
 
+TFF_LINE = re.compile(r"^tff\(([^,]+), (type|axiom|conjecture), (.*)\)\.$")
+TFF_DECL = re.compile(r"^([^:]+): (.*)$")
+TFF_WORD = re.compile(r"(?<![A-Za-z0-9_$])([a-z_$][A-Za-z0-9_$]*)(\()?")
+TFF_BUILTIN = {"$true", "$false", "$less", "$lesseq", "$greater", "$greatereq", "$sum", "$difference", "$product", "$uminus", "$int", "$o", "$tType", "$i"}
+
+
+def tff_wellformedness_defects(text):
+    """Structural C09 checks on one problem text: entry names unique, every identifier declared exactly once (at one
+    type), every used lower-case identifier declared (with the arity it is used at), exactly one conjecture."""
+    out, names, decls, nconj, uses = [], {}, {}, 0, []
+    for line in text.split("\n"):
+        m = TFF_LINE.match(line)
+        if not m:
+            continue
+        name, role, body = m.groups()
+        names[name] = names.get(name, 0) + 1
+        if role == "type":
+            d = TFF_DECL.match(body)
+            if d:
+                decls.setdefault(d.group(1).strip(), []).append(d.group(2).strip())
+            continue
+        if role == "conjecture":
+            nconj += 1
+        # binder lists `[X: general, N: $int]` are not uses
+        stripped = re.sub(r"[!?]\[[^\]]*\]", "", body)
+        for w in TFF_WORD.finditer(stripped):
+            uses.append((w.group(1), w.group(2) is not None, name))
+    for n, k in names.items():
+        if k > 1:
+            out.append(f"entry name {n} used {k} times")
+    for ident, tys in decls.items():
+        if len(tys) > 1:
+            out.append(f"identifier {ident} declared {len(tys)} times ({'; '.join(sorted(set(tys)))})")
+    if nconj != 1:
+        out.append(f"{nconj} conjectures")
+    seen = set()
+    for ident, applied, where in uses:
+        if ident in TFF_BUILTIN or ident in seen:
+            continue
+        seen.add(ident)
+        if ident not in decls:
+            out.append(f"identifier {ident} used in {where} but not declared")
+        else:
+            ty = decls[ident][0]
+            if applied != (">" in ty):
+                out.append(f"identifier {ident} declared as {ty} but used {'with' if applied else 'without'} arguments in {where}")
+    return out
+
+
+def search_c09(mismatches, outdir):
+    """C09: structural well-formedness of the implementation's problem texts; a defect the proved model's text of the same
+    problem has as well (the three known classes) is not attributed to the change."""
+    for m in sorted((m for m in mismatches if "impl" in m and "model" in m), key=lambda m: len(m.get("request", ""))):
+        try:
+            a, b = sx.parse(m["impl"]), sx.parse(m["model"])
+        except Exception:
+            continue
+        if not isinstance(a, list):
+            continue
+        model_texts = {}
+        if isinstance(b, list):
+            for prob in b:
+                if isinstance(prob, list) and len(prob) == 2 and all(isinstance(x, tuple) for x in prob):
+                    model_texts[prob[0][1]] = prob[1][1]
+        for prob in a:
+            if isinstance(prob, list) and len(prob) == 2 and all(isinstance(x, tuple) for x in prob):
+                bad = tff_wellformedness_defects(prob[1][1])
+                known = set(tff_wellformedness_defects(model_texts.get(prob[0][1], ""))) if prob[0][1] in model_texts else set()
+                bad = [x for x in bad if x not in known]
+                if bad:
+                    return {"input_request": m.get("request"), "problem": prob[0][1], "defects": bad[:6], "origin": m.get("origin"),
+                            "note": "failing input: the problem the implementation emits for this task is not well-formed self-contained TFF "
+                                    "(structural check of the text: names, declarations, uses, number of conjectures)"}
+    return None
+
+
 TPTP_VAR = re.compile(r"(?<![A-Za-z0-9_$])_*[A-Z][A-Za-z0-9_]*_([gis])(?![A-Za-z0-9_])")
 
 
@@ -503,18 +579,31 @@ RENAME_WITNESS = ('(strong_rename_issues ((rule (basic ("p" ())) ()) (rule (basi
                   '((rule (basic ("p" ())) ()) (rule (basic ("q" ())) ())) sequential universal tau_star false false 256)')
 
 
+SYM_IN_PROGRAM = re.compile(r'\(sym "([^"]*)"\)')
+SYM_IN_FORMULA = re.compile(r'\(sy "([^"]*)"\)')
+
+
 def c03_extra(tier, seed, outdir, broken, violations, findings_seen):
-    """Strong-equivalence cases in which rename_conflicting_symbols changes the order of symbolic constants (model-side
-    analysis of the assembled problems): a known finding; the fixed witness runs first, through the real CLI as well."""
+    """Symbolic constants keep their names (and hence their place in the order of symbols): in every problem the
+    implementation emits for a strong-equivalence task the symbolic constants are constants of the two programs
+    (repaired defect: a constant equal to the h-/t-copy of a propositional predicate used to be renamed c__s, which
+    changed comparisons between constants). The fixed witness also runs through the real CLI."""
     import cli, tempfile
-    known = {k["class"]: k for k in load_known("C03") if "class" in k}
     reqs = (outdir / "strong.req").read_text().splitlines()
-    qs = [RENAME_WITNESS] + [r.replace("(strong ", "(strong_rename_issues ", 1) for r in reqs]
-    answers = ask_driver(qs)
-    hits = [i for i, a in enumerate(answers) if a.startswith("((")]
-    stats = {"evaluations": len(qs), "distinct_nontrivial": len(hits), "cases_with_order_changing_renaming": len(hits),
-             "samples": [f"{qs[i][:160]} ... -> {answers[i][:80]}" for i in hits[:2]]}
-    # the witness on the implementation: the emitted problem orders tp_ below the renamed tp__s
+    imps = (outdir / "strong.impl").read_text().splitlines()
+    bad = []
+    for r, a in zip(reqs, imps):
+        if not a.startswith("((problem"):
+            continue
+        allowed = set(SYM_IN_PROGRAM.findall(r))
+        renamed = sorted(set(SYM_IN_FORMULA.findall(a)) - allowed)
+        if renamed:
+            bad.append((r, renamed))
+    stats = {"evaluations": len(reqs) + 1, "distinct_nontrivial": sum(1 for a in imps if a.startswith("((problem")),
+             "tasks_with_renamed_constants": len(bad), "samples": [f"{r[:160]} ... -> {x}" for r, x in bad[:2]]}
+    for r, x in bad[:5]:
+        violations.append({"property": "C03", "kind": "a symbolic constant of the emitted problems is no constant of the programs (renamed constants take another place in the order of symbols)",
+                           "request": r, "constants": x})
     ok, log = cli.build_cli()
     if ok:
         with tempfile.TemporaryDirectory(dir=str(outdir)) as tmp:
@@ -525,16 +614,13 @@ def c03_extra(tier, seed, outdir, broken, violations, findings_seen):
             subprocess.run([str(cli.ANTHEM), "verify", "--equivalence", "strong", "--no-proof-search", "--no-timing", "--save-problems", str(t / "out"),
                             str(t / "l.lp"), str(t / "r.lp")], stdout=subprocess.PIPE, stderr=subprocess.PIPE, timeout=120)
             texts = "".join(f.read_text() for f in sorted((t / "out").glob("*.p")))
-            impl_witness = "p__less__(f__symbolic__(tp_), f__symbolic__(tp__s))" in texts
-            stats["implementation_witness_reproduced"] = impl_witness
+            good = "p__less__(f__symbolic__(tp), f__symbolic__(tp_))" in texts and "tp__s" not in texts
+            stats["implementation_witness_orders_tp_before_tp_"] = good
+            if not good:
+                violations.append({"property": "C03", "kind": "witness `p. q :- tp_ < tp.` vs `p. q.`: the emitted problems do not state tp < tp_ (symbol renaming changes the order of constants)",
+                                   "request": RENAME_WITNESS})
     else:
         broken.append({"kind": "cli-build", "detail": log})
-        impl_witness = False
-    if hits or impl_witness:
-        if "symbol-renaming-changes-order" in known:
-            findings_seen.append(known["symbol-renaming-changes-order"]["what"])
-        else:
-            violations.append({"property": "C03", "kind": "rename_conflicting_symbols changes the order of symbolic constants", "request": qs[hits[0]] if hits else RENAME_WITNESS})
     return stats
 
 
@@ -629,7 +715,7 @@ def replay(pid, path):
 
 
 HOOK_COMMITS = ["ffc8b2b"]
-FIX_COMMITS = ["ca17dcd", "3401bdf", "db0baa0", "3af4e16", "b9b9933", "8154c20", "f1b4fb0", "9b44a2c", "d0885ee", "c8750dd", "2ca6488", "82641ae", "d771171", "a1dc9d0", "06d5e1b"]
+FIX_COMMITS = ["ca17dcd", "3401bdf", "db0baa0", "3af4e16", "b9b9933", "8154c20", "f1b4fb0", "9b44a2c", "d0885ee", "c8750dd", "2ca6488", "82641ae", "d771171", "a1dc9d0", "06d5e1b", "611037e"]
 NOT_YET = {}
 
 PROOF_NOTE = ("Trusted: Lean kernel; Semantics/*.lean as the specification; the correspondence harness and serialisers; "
@@ -731,8 +817,10 @@ PROPS = {
                       "programs' predicates and (H,T) satisfies one program but not the other in a requested direction; strongly_equivalent_iff - no emitted problem of a universal task has a standard "
                       "countermodel iff the programs have the same HT models; strong_refutes_needs_sub - an interpretation with H not-subset T on a program predicate refutes nothing. Composes C01 (tau_star_correct), "
                       "C08 (mu_correct), C07 (ht and classic portfolios), C05 (gamma_correct), C19 (eq-break, decompositions) and the semantics of the transition axioms. Hypotheses, all explicit: the pass bound "
-                      "sufficed, no usize overflow, rename_conflicting_symbols is the identity on the assembled problems (NoSymbolConflict - when it is not, the claim is false: known finding with witness), "
-                      "and with simplification or mu on, H subset T everywhere.",
+                      "sufficed, no usize overflow, and with simplification or mu on, H subset T everywhere; strong_refutes / strongly_equivalent_iff additionally assume that rename_conflicting_symbols is the identity (NoSymbolConflict). "
+                      "strong_refutes_with_renaming removes that assumption: since fix 611037e a propositional predicate whose name is also a symbolic constant is renamed to a free name (clashing_predicates_get_free_names) and constants keep their names and order "
+                      "(before, the constant was renamed c__s and comparisons between constants could change: the literal property was false, witness rename_keeps_symbols_witness); a renamed problem is refuted by J iff the original is refuted by J read through the renaming (sat_renameProps). "
+                      "The check also verifies on every generated task that the constants of the emitted problems are constants of the programs.",
         "level_note": PROOF_NOTE,
         "technique": "Lean 4 proof by composition (gamma_correct + decomposition theorems) + end-to-end differential correspondence",
         "design_ref": "DESIGN.md 6/C03",
@@ -816,6 +904,7 @@ PROPS = {
         "assumptions": COMMON_ASSUME,
     },
     "C09": {
+        "search": search_c09,
         "suites": [("strong_text", 300, 6000), ("external_text", 150, 3000), ("decompose", 1000, 20000)],
         "extra": tptp_validate("C09", "strong_text"),
         "rule": "whole problem texts (preamble, declarations, symbol order axioms, formulas) of seeded strong-equivalence tasks under all flag combinations vs Lean `Problem.tptpText`; "
@@ -861,7 +950,7 @@ PROPS = {
                       "(composition of C04 completion_tight, C07, C19, private renaming, assembly; hypothesis: rename_conflicting_symbols is the identity on the assembled problems); cannot_produce_public_part - "
                       "with simplification off the last clause is the same as 'no stable model of that program has the same extents of the non-private predicates' (uniqueness of the private extents without "
                       "private recursion, private_extents_unique, by induction on the rank in the private dependency graph); external_refutes_specification - the same for a specification (annotated formulas, every role and direction annotation the task accepts) against a program: refuted iff the interpretation satisfies the user-guide assumptions, the specification's universal assumptions and the program's private definitions and either (forward) satisfies the specification's forward premises (forward assumptions, universal/forward spec formulas) without being a stable model of the program, or (backward) is a stable model of the program and falsifies a universal/backward spec formula (specification_roles: which annotation plays which part; a backward-annotated assumption of the specification is dropped by the code); external_refutes_programs_with_placeholders / external_refutes_specification_with_placeholders - both statements for user guides that declare placeholders of any sort: a program with placeholders is read as the reference semantics prescribes, every placeholder replaced by the precomputed term the interpretation assigns to it (Program.substSym (phNu m J.fc)); rests on tauStar_substSym and completion_substSym (tau* and completion commute with the substitution of closed terms for symbolic constants; replace_placeholders is an instance) and sat_substSym_congr (only the values of the substituted terms matter); external_sound_with_outline - for EVERY accepted task (placeholders, proof outline with lemmas, inductive lemmas, definitions of any direction): if no emitted problem (outline problems and final problems) has a countermodel, no interpretation satisfying the user-guide assumptions witnesses a difference in a requested direction; rests on assembled_outline_sound (an accepted outline does not change what is claimed), C13 outline_sound and proofOutlineFrom_defsExt (accepted definitions can be made true by re-interpreting only the predicates they define). With an outline the converse is not claimed (a false lemma has a countermodel although the sides agree). The literal property was FALSE on the unchanged tree at two points: the missing-output defect (repaired; missing_output_now_refutable) and the private rename clash (repaired; rename_clash_now_separated; private_renaming_fresh: the names chosen for clashing private predicates are no predicates of the task and pairwise different, by pigeonhole on the injective family p, p1, p2, ...; "
-                      "one_interpretation_carries_both_readings: any extents for the two sides that agree on the public predicates are read off one interpretation, the program side through the renaming). Corpus witnesses of both are replayed on the implementation and reported if they ever fail again. valid_problems_imply_external_equivalence - the property's conclusion about the two programs alone (program against program, no placeholders/outline, simplification off): if no interpretation refutes an emitted problem, every stable model of either program (under the user-guide assumptions) has the same public part as some stable model of the other, in each requested direction; rests on private_definitions_satisfiable (without private recursion the private predicates always have extents satisfying their completed definitions: iteration of the supported operator, stable after rank+1 rounds) and one_interpretation_carries_both_readings.",
+                      "one_interpretation_carries_both_readings: any extents for the two sides that agree on the public predicates are read off one interpretation, the program side through the renaming). Corpus witnesses of both are replayed on the implementation and reported if they ever fail again. every_accepted_program_task_sound / every_accepted_specification_task_sound - the property's conclusion about the programs alone for EVERY accepted task (placeholders of any sort, simplification on or off, proof outlines with lemmas, inductive lemmas and definitions): if rename_conflicting_symbols is the identity and no emitted problem has a countermodel, then in each requested direction every stable model of one program (read with the placeholder values, under the user-guide assumptions) has the same public part as some stable model of the other, resp. the program meets the specification and the specification admits only behaviours of the program; valid_problems_imply_external_equivalence / valid_problems_imply_specification_met - the same for tasks without an outline, with the side condition of the two-sided theorems; rests on private_definitions_satisfiable (without private recursion the private predicates always have extents satisfying their completed definitions: iteration of the supported operator, stable after rank+1 rounds), one_interpretation_carries_both_readings, and definitions_keep_their_role_under_simplification (the classic portfolio never changes the head predicate of a formula of a completed theory: none of the 15 rewrites touches an equivalence at the root or below one universal quantifier, and a constraint never acquires a head because tau* bodies contain no implication or equivalence and every rewrite preserves that) - so simplification cannot turn a private definition into a conjecture or a constraint into an assumption.",
         "level_note": PROOF_NOTE,
         "technique": "Lean 4 (pipeline model, counterexample theorems by kernel evaluation, decomposition theorems) + end-to-end differential correspondence",
         "design_ref": "DESIGN.md 6/C02",
